@@ -46,6 +46,9 @@ _id = st.one_of(
 _text = st.one_of(
     st.text(alphabet=st.characters(min_codepoint=32, max_codepoint=126, blacklist_characters="@"), min_size=1, max_size=24),
     st.text(alphabet=st.characters(min_codepoint=1, max_codepoint=255), min_size=1, max_size=16).map(lambda s: s + "x" if s.endswith("@") else s),
+    # free text that looks like something the codec treats specially: a leading or inner '@', digits only, hex only, a dictionary word
+    st.builds(lambda a, b: a + b, st.sampled_from(["@", "@@", "a@b", "@s.whatsapp.net", "0@", "12345678", "DEADBEEF", "-", ".", "image", "s.whatsapp.net"]),
+              st.text(alphabet="abc019.-@ ", min_size=0, max_size=6)).map(lambda s: s + "x" if s.endswith("@") else s),
 )
 
 ID = Kind("ID", _id)
